@@ -63,8 +63,8 @@ static void c16_case(uint64_t idx, rng_t *r) {
     if (rng_chance(r, 1, 5) && c->domain != DOM_GROUP && c->domain != DOM_STRICT16) { /* counts whose tagged length changes, multiples of 128 */
         static const size_t lens[] = {240, 241, 2287, 2288, 128, 256, 384, 129, 257, 1, 2};
         size_t n = lens[rng_below(r, 11)];
-        free(in.a);
-        in.a = malloc(n * 8);
+        free(in.base);
+        input_alloc(&in, n, g);
         gen_array_model(r, (int)rng_below(r, AM_NMODELS), in.a, n, (unsigned)c->elembits);
         in.n = shape_domain(c, r, in.a, n, AM_MIXTURE);
     }
@@ -232,7 +232,7 @@ static void c16_case(uint64_t idx, rng_t *r) {
 out:
     g_sub[0] = 0;
     free(enc);
-    free(in.a);
+    free(in.base);
 }
 
 /* =================================================================== C06 */
@@ -269,8 +269,8 @@ static uint64_t *c06_make(rng_t *r, size_t *pn, const char **kindname) {
     int kind = (int)rng_below(r, 12);
     bool big = g_param[1] && rng_below(r, g_param[1]) == 0;
     if (big) {
-        static const size_t bl[] = {9998, 9999, 10000, 10001, 10002, 12000, 20000, 30000};
-        n = bl[rng_below(r, 8)];
+        static const size_t bl[] = {8193, 8200, 9000, 9998, 9999, 10000, 10001, 10002, 12000, 20000, 30000};
+        n = bl[rng_below(r, 11)];
     }
     uint64_t *a = malloc((n + 1) * 8);
     switch (kind) {
@@ -315,6 +315,18 @@ static uint64_t *c06_make(rng_t *r, size_t *pn, const char **kindname) {
             if (rng_chance(r, 1, 3)) { size_t k = 1 + rng_below(r, n - 1); a[k] = a[k - 1]; }
         }
         if (kind == 3) reverse(a, n);
+        if (kind == 1 && n > 4 && rng_chance(r, 1, 3)) {
+            /* two ascending runs joined at one index (a power of two where possible): a single descent */
+            size_t j = (size_t)1 << rng_below(r, 14);
+            while (j >= n) j >>= 1;
+            if (rng_chance(r, 1, 4)) j = 1 + rng_below(r, n - 1);
+            uint64_t *t = malloc(n * 8);
+            memcpy(t, a + (n - j), j * 8);
+            memcpy(t + j, a, (n - j) * 8);
+            memcpy(a, t, n * 8);
+            free(t);
+            *kindname = "dense16-two-ascending-runs";
+        }
         break;
     }
     case 4: { /* sorted with small deltas: DELTA leaf (both conditions) */
@@ -471,6 +483,20 @@ static void c06_case(uint64_t idx, rng_t *r) {
     free(tmp);
     if (distinct_add(&g_distinct, arr_sig(&CODECS[0], a, n)) && nontrivial(a, n)) STAT_INC("distinct_nontrivial");
     bool huge = n >= 1000000;
+    if (!huge && n >= 3 && (idx % 4) == 1) {
+        /* history: the public analysis runs on a look-alike in the very same buffer (same count, first and last
+         * element, same values in another order), the buffer is then edited in place and encoded */
+        uint64_t *real = malloc(n * 8);
+        memcpy(real, a, n * 8);
+        if (idx % 8 == 1) qsort(a + 1, n - 2, 8, cmp_u64);
+        else for (size_t i = 1; i + 1 < n; i++) a[i] = real[n - 1 - i];
+        varintAdaptiveDataStats st;
+        g_ctx = "varintAdaptiveAnalyze";
+        varintAdaptiveAnalyze(a, n, &st);
+        memcpy(a, real, n * 8);
+        free(real);
+        STAT_INC("c06_analyze_edit_encode_histories");
+    }
     if (!huge || g_shard == 1) c06_roundtrip("adaptive.auto", -1, a, n, kindname);
     /* forced encodings inside their documented domain */
     int which = (int)rng_below(r, 6);
